@@ -63,14 +63,20 @@ fn new_bytecode<'gc>(
     } = m;
     let bytecode_function = new_bytecode_function(interner, gc, vm, function)?;
 
+    // (Bytecode which was compiled elsewhere may refer to globals that this vm has not loaded)
     let globals = module_globals
         .into_iter()
         .map(|index| {
             env.get_global(index.definition_name())
-                .expect("ICE: Global is missing from environment")
-                .value
+                .map(|global| global.value)
+                .ok_or_else(|| {
+                    Error::Message(format!(
+                        "The global `{}` is not defined in this vm",
+                        index.definition_name()
+                    ))
+                })
         })
-        .collect::<Vec<_>>();
+        .collect::<Result<Vec<_>>>()?;
 
     // SAFETY No collection are done while we create these functions
     unsafe {
